@@ -255,7 +255,7 @@ fn manager(family: String, work: Arc<Mutex<Receiver<(u64, String)>>>, opts: Arc<
                     let group = format!("{} {}", v["f"]["kind"].as_str().unwrap_or("?"), v["f"]["what"].as_str().unwrap_or(""));
                     let seen = s.groups.entry(group).or_insert(0);
                     *seen += 1;
-                    if *seen <= 4 && s.failures.len() < opts.maxfail {
+                    if (*seen <= 4 || opts.maxfail >= 1000) && s.failures.len() < opts.maxfail {
                         let case: Value = serde_json::from_str(&case_line).unwrap_or(Value::Null);
                         s.failures.push(json!({"idx": idx, "family": family, "case": case, "rendered": v["r"], "detail": v["f"], "ms": ms}));
                     }
